@@ -263,7 +263,15 @@ fn fill_banks(
         if let (Some(size), Some(offset)) =
             (bankdef.size, bankdef.output_offset)
         {
-            let highest_position = offset + size - 1;
+            // A zero-sized bank at the start of the output
+            // has nothing to fill
+            let highest_position = {
+                match (offset + size).checked_sub(1)
+                {
+                    Some(pos) => pos,
+                    None => continue,
+                }
+            };
 
             if output.len() < highest_position
             {
